@@ -30,6 +30,12 @@ def run(rep, tier):
         qs.append(l2.Query("ucmu.d%d" % d, ctu, ["D=%d" % d, "WHAT=1"], timeout=300, function="gsl_matrix_complex_change_basis_UCMU (U^dagger M U; used by Rotate(U), UTransform)", where="src/SUNalg.cpp"))
         qs.append(l2.Query("iucmu.d%d" % d, ctu, ["D=%d" % d, "WHAT=2"], timeout=300, function="gsl_matrix_complex_change_basis_IUCMU (U M U^dagger; used by UDaggerTransform)", where="src/SUNalg.cpp"))
 
+    cto = extract.instantiate(open(os.path.join(core.VERIF, "contracts", "C06_order_l2.c")).read(), rep)
+    for d in (2, 3, 4, 5, 6):
+        qs.append(l2.Query("order.d%d" % d, cto, ["D=%d" % d], timeout=120, unwind=2 * d * d + 2,
+                           function="SU_vector::RotateToB1 / RotateToB0 (sequence of plane rotations)", where="src/SUNalg.cpp"))
+    rep.trust("spec lemma: R(i,j,-theta,delta) = R(i,j,theta,delta)^dagger, so the reversed, angle-negated sequence is the inverse map")
+
     def gens(q):
         df = l2.defs_of(q)
         if "LINEAR" in df or "II" not in df:
